@@ -118,7 +118,7 @@ var plans = []Plan{
 	{
 		ID: "C10", Level: "exploration",
 		Rule: "generated client registration (plain / OpenID Connect client with each token_endpoint_auth_method incl. unsupported ones, public or confidential, 0-3 rotated secrets, client ids and secrets with URL-special and non-ASCII characters, real bcrypt) x credential transport (Basic form-encoded, Basic raw, body, both, neither, id only, malformed header, client assertion by registered / unregistered key) x secret relation (current, rotated, wrong, empty, other client's, the stored hash, prefix, extended) x endpoint (token with client_credentials / authorization_code / refresh_token / password / device_code / jwt-bearer, revocation, PAR, device authorization), each request otherwise valid; oracle: necessary condition computed independently (a transport the method permits carried a valid secret or a valid assertion), refused requests must be invalid_client/invalid_request and must not write code/token records (storage recorder), canonical valid credentials must pass. Non-trivial: the client is confidential (the request reaches method gating / secret comparison); distinct by (registration, endpoint, transport, relation).",
-		Jobs: []Job{{Test: "TestC10_ClientAuthentication", Shards: [2]int{16, 16}, Checks: [2]int{1000, 8000}, Timeout: [2]int{600, 3000}}},
+		Jobs: []Job{{Test: "TestC10_ClientAuthentication", Shards: [2]int{16, 16}, Checks: [2]int{2500, 12000}, Timeout: [2]int{600, 3000}}},
 	},
 
 	{
